@@ -94,6 +94,8 @@ def _public_helpers(mod) -> Dict[str, ast.AST]:
             out[s.name] = s
         elif isinstance(s, ast.Assign) and len(s.targets) == 1 and isinstance(s.targets[0], ast.Name) and isinstance(s.value, ast.Call) and not s.targets[0].id.startswith("_"):
             out[s.targets[0].id] = s
+        elif isinstance(s, ast.AnnAssign) and isinstance(s.target, ast.Name) and isinstance(s.value, ast.Call) and not s.target.id.startswith("_"):
+            out[s.target.id] = s        # ``flatten: Final[PipelineStep[...]] = PipelineStep(...)``
     return out
 
 
